@@ -402,17 +402,26 @@ OldBitClass(O, S, i, x, b) ==
 AppendTypes(c) == {TInt, TNat}
 
 ---- (* SAFE *)
+(* Documented rule for functions (text of the linter's own messages): arguments are appended   *)
+(* either under free bits of masks the old function already has, or after ONE new unmasked #   *)
+(* argument that is the field mask of every other new argument -- not both in one evolution.   *)
+OldFieldCount(O, c) == IF HasName(O, c.name) THEN Len(O[IdxOf(O, c.name)].fields) ELSE Len(c.fields)
+NewMaskOf(O, c) ==     \* the unmasked # argument appended to function c since O, or ""
+  LET n == OldFieldCount(O, c) IN
+  IF c.fn /\ Len(c.fields) > n /\ c.fields[n + 1].ty.t = "#" /\ c.fields[n + 1].mask = "" THEN c.fields[n + 1].name ELSE ""
 AppendMaskedField(O, S) ==
   { [s |-> SetFields(S, i, Append(S[i].fields, Field(FreshField(S[i], "zf"), ty, x, b))),
      e |-> Entry("AppendMaskedField", TRUE, TRUE, S[i].name, IF x \in Range(S[i].targs) THEN "template-mask" ELSE "field-mask", FALSE, <<i, x, b, ty.t>>)]
     : <<i, x, b, ty>> \in { q \in (1..Len(S)) \X AllNatVars(S) \X Bits \X {TInt, TNat} :
                               /\ q[2] \in NatVars(S[q[1]])
+                              /\ q[4] = TNat => q[3] = 0
+                              /\ NewMaskOf(O, S[q[1]]) \in {"", q[2]}
                               /\ OldBitClass(O, S, q[1], q[2], q[3]) = "free" } }
 
 AppendConstructor(O, S) ==
   { LET l == LastOfType(S, T)
         first == S[CHOOSE i \in CtorsOfType(S, T) : \A j \in CtorsOfType(S, T) : i <= j]
-        nc == [fn |-> FALSE, name |-> first.name \o "N", typ |-> T, tag |-> MaxTag(S) + 1, targs |-> first.targs,
+        nc == [fn |-> FALSE, name |-> S[l].name \o "N", typ |-> T, tag |-> MaxTag(S) + 1, targs |-> first.targs,
                fields |-> <<Field("v", TInt, "", 0)>>, res |-> TInt]
     IN [s |-> InsertAfter(S, l, nc), e |-> Entry("AppendConstructor", TRUE, TRUE, nc.name, "boxed-only", FALSE, T)]
     : T \in {T \in TypeNames(S) : ~UsedBare(S, T) /\ ~UsedBare(O, T)} }
@@ -441,7 +450,9 @@ AppendFunctionMaskAndArgs(O, S) ==
     [s |-> SetFields(S, i, c.fields \o <<Field(m, TNat, "", 0), Field("za" \o ToString(Len(c.fields) + 2), TInt, m, b)>>),
      e |-> Entry("AppendFunctionMaskAndArgs", TRUE, TRUE, c.name,
                  IF \E j \in 1..Len(c.fields) : c.fields[j].ty.t = "#" THEN "has-nat" ELSE "no-nat", FALSE, <<i, b>>)]
-    : <<i, b>> \in {q \in FnIdxs(S) \X Bits : \A j \in 1..Len(S[q[1]].fields) : S[q[1]].fields[j].mask = ""} }
+    : <<i, b>> \in {q \in FnIdxs(S) \X Bits : /\ \A j \in 1..Len(S[q[1]].fields) : S[q[1]].fields[j].mask = ""
+                                              /\ HasName(O, S[q[1]].name)
+                                              /\ Len(S[q[1]].fields) = OldFieldCount(O, S[q[1]])} }
 
 ---- (* UNSAFE, documented *)
 RemoveConstructor(O, S) ==
